@@ -1,6 +1,13 @@
 package main
 
-import "go/token"
+import (
+	"encoding/hex"
+	"go/token"
+
+	"golang.org/x/crypto/sha3"
+)
+
+var extraRegs []func()
 
 func tokenOf(s string) token.Token {
 	switch s {
@@ -10,4 +17,54 @@ func tokenOf(s string) token.Token {
 	panic("tokenOf")
 }
 
-func registerMoreExternals() {}
+func registerMoreExternals() {
+	registerMsgp()
+	for _, f := range extraRegs {
+		f()
+	}
+}
+
+func init() {
+	extraRegs = append(extraRegs, func() {
+		rawHash := func(fr *frame, args []value) []byte {
+			it := args[0].(iface)
+			var data []byte
+			switch v := it.v.(type) {
+			case string:
+				data = []byte(v)
+			case []value:
+				data = valuesToBytes(v)
+			case array:
+				data = valuesToBytes([]value(v))
+			default:
+				panic(targetPanic{iface{nil, "unknown type"}})
+			}
+			h := sha3.Sum256(data)
+			return h[:]
+		}
+		for _, pk := range []string{"0chain.net/core/encryption", "github.com/0chain/common/core/encryption"} {
+			externals[pk+".RawHash"] = func(fr *frame, args []value) value { return bytesToValues(rawHash(fr, args)) }
+			externals[pk+".Hash"] = func(fr *frame, args []value) value { return hex.EncodeToString(rawHash(fr, args)) }
+		}
+		externals["golang.org/x/crypto/sha3.Sum256"] = func(fr *frame, args []value) value {
+			h := sha3.Sum256(valuesToBytes(args[0].([]value)))
+			out := make(array, 32)
+			for i := range out {
+				out[i] = h[i]
+			}
+			return out
+		}
+	})
+}
+
+func valuesToBytes(v []value) []byte {
+	out := make([]byte, len(v))
+	for i, x := range v {
+		b, ok := x.(uint8)
+		if !ok {
+			panic(unsupported("hash / byte operation over symbolic data"))
+		}
+		out[i] = b
+	}
+	return out
+}
